@@ -187,19 +187,6 @@ def _nary_ops():
 
 
 def gen_cases(tier, seed):
-    import os
-    if os.environ.get('C05_TMP_ONLY_SPARSE'):      # TEMPORARY
-        base = set()
-        import json
-        os.environ['C05_TMP_ONLY_SPARSE'] = ''
-        for c in _gen_cases(tier, seed):
-            if any(o[0] == 'bin' and o[3].get('dt') in SPARSE_DT for o in c['ops']):
-                yield c
-        return
-    yield from _gen_cases(tier, seed)
-
-
-def _gen_cases(tier, seed):
     thorough = tier == 'thorough'
     shapes = SHAPES_T if thorough else SHAPES
     unary = _unary_ops(thorough)
